@@ -126,6 +126,9 @@ func setPath(v Value, path []int, nv Value) Value {
 
 // load reads through a pointer. Symbolic element pointers yield an ite-chain (must be mergeable).
 func (e *Engine) load(s *State, p *PtrV) Value {
+	if e.cfg.Races && e.curGo != 0 {
+		e.raceAccess(s, p, false)
+	}
 	root := e.get(s, p.Obj)
 	if p.Sym == nil {
 		return getPath(root, p.Path)
@@ -151,6 +154,9 @@ func (e *Engine) load(s *State, p *PtrV) Value {
 }
 
 func (e *Engine) store(s *State, p *PtrV, v Value) {
+	if e.cfg.Races && e.curGo != 0 {
+		e.raceAccess(s, p, true)
+	}
 	root := e.get(s, p.Obj)
 	if p.Sym == nil {
 		s.heap[p.Obj] = setPath(root, p.Path, v)
